@@ -11,6 +11,7 @@ def hyps (req : Sexp) : Option Sexp :=
   match req with
   | .list [.atom "rt", env, rt, val, .atom _] => some (Driver.rtHyps env rt val)
   | .list [.atom "prog", _, prog, _, .list vals] => some (Driver.progSpec prog vals)
+  | .list [.atom "rewrite", _, p, _, _, q, _, .list script] => some (Driver.rewriteHyps p q script)
   | _ => none
 
 def handle (req : Sexp) : Sexp :=
@@ -20,6 +21,7 @@ def handle (req : Sexp) : Sexp :=
   | .list (.atom "sha-toks" :: toks) => Driver.shaToks toks
   | .list [.atom "rt", env, rt, val, .atom strict] => Driver.rtOp env rt val (strict == "true")
   | .list [.atom "prog", _, prog, _, .list vals] => Driver.progOp prog vals
+  | .list [.atom "rewrite", _, p, _, .list vals, q, _, _] => Driver.rewriteOp p q vals
   | _ => .list [.atom "bad-op"]
 
 partial def loop (h : IO.FS.Stream) (out : IO.FS.Stream) : IO Unit := do
